@@ -26,7 +26,10 @@ int afc_canaries_ok(void);
 int hfc_dispatch(int idx);
 }
 
-const char *H_NAME = "fibconc";
+#ifndef H_SUFFIX
+#define H_SUFFIX ""
+#endif
+const char *H_NAME = "fibconc" H_SUFFIX; // "_fb" = built with the __STDC_NO_ATOMICS__ fallback of atomic.h
 
 namespace {
 enum { YIELDED = 0, WAITING = 1 };
